@@ -190,5 +190,16 @@ func Packet(r *rand.Rand, maxOpts int) (*dhcpv4.DHCPv4, *ref4.P4) {
 		p.Options[code] = v
 		e.Opts[code] = append([]byte{}, v...)
 	}
+	if maxOpts > 0 && r.IntN(8) == 0 {
+		// the classic PXE reply: the server name and boot file are given in the header fields AND as options 66/67
+		if p.ServerHostName != "" {
+			p.Options[66] = []byte(p.ServerHostName)
+			e.Opts[66] = []byte(p.ServerHostName)
+		}
+		if p.BootFileName != "" && r.IntN(4) != 0 {
+			p.Options[67] = []byte(p.BootFileName)
+			e.Opts[67] = []byte(p.BootFileName)
+		}
+	}
 	return p, e
 }
